@@ -10,12 +10,19 @@ trap 'rm -rf "$TMP"' EXIT
 mkdir -p "$TMP/repo" && cp -r /repo/src /repo/setup.py /repo/README.md /repo/requirements.txt "$TMP/repo/" 2>/dev/null
 ( cd "$TMP/repo" && patch -p1 --quiet < "$SD/patch.diff" ) || { echo "PATCH-FAILED"; exit 2; }
 find "$TMP/repo" -name '*.orig' -delete
+if [ -n "$SEED_FAST" ]; then
+  # re-verification of an already confirmed change against changed CHECKS: the demonstration is not repeated (rc = "-"),
+  # and the check stops at its first violation
+  rc0=-; rc1=-
+  export VP_FAILFAST_FLAG="$TMP/flag"
+else
 echo "== demo on current tree"
 ( cd /tmp && PYTHONPATH=/repo/src timeout 900 /venv/bin/python "$SD/demo.py" > "$TMP/demo_clean.log" 2>&1 ); rc0=$?
 echo "   exit=$rc0"
 echo "== demo with patch"
 ( cd /tmp && PYTHONPATH="$TMP/repo/src" timeout 900 /venv/bin/python "$SD/demo.py" > "$TMP/demo_patched.log" 2>&1 ); rc1=$?
 echo "   exit=$rc1"; tail -3 "$TMP/demo_patched.log" | sed 's/^/   | /'
+fi
 if [ $NOSUITE == 0 ]; then
   echo "== repository suite with patch"
   mkdir -p "$TMP/tmpdir"
